@@ -900,7 +900,7 @@ func jsonToYAML(j []byte) ([]byte, error) {
 
 // specOp draws a whole-specification validation: generated mini spec (mostly) or a small repository fixture.
 func specOp(r *Rand) Op {
-	op := Op{Kind: KSpec, OrderSeed: orderSeedFor(r), SharedMeta: true}
+	op := Op{Kind: KSpec, OrderSeed: orderSeedFor(r), SharedMeta: true, FromFile: r.Chance(250)}
 	if ids := FixtureIDs(); len(ids) > 0 && r.Chance(250) {
 		op.Doc = pick(r, ids)
 	} else {
